@@ -12,6 +12,7 @@ import ast
 from ..cfg import cfg_of, literals
 from ..dataflow import Defs, atoms, calls_in, provenance, stmt_of
 from ..index import AnalysisError, call_name, dotted, enclosing, head, norm, walk_body
+from ..pattern import find as pfind, has_fact, local_defined_as, pmatch
 from ..rules import COMPOUND, kw, node_calls, own_calls, prov_at
 from ..witness import W
 
@@ -124,6 +125,14 @@ WRITERS = [("Saver.save", COMMON), ("Saver.__init__", COMMON), ("Saver.close", C
 MD_NAMES = {"metadata", "md", "chunk_info", "c", "self.md", "meta", "target_md"}
 
 
+def _is_md_base(base):
+    """Metadata-like mapping: a plain name or self.md - not an array (`x.data[...]`, `data[...]`)."""
+    d = dotted(base) or ""
+    if not d or d.endswith(".data") or d.split(".")[-1] in ("data", "x", "records", "things"):
+        return False
+    return "." not in d or d == "self.md"
+
+
 def _reader_keys(f):
     """Constant keys read from metadata-like objects on non-failing paths: {key: optional?}."""
     out = {}
@@ -134,9 +143,9 @@ def _reader_keys(f):
             base = n.value
             while isinstance(base, ast.Subscript):
                 base = base.value
-            if (dotted(base) or "") in MD_NAMES:
+            if _is_md_base(base):
                 out.setdefault(n.slice.value, False)
-        if isinstance(n, ast.Call) and isinstance(n.func, ast.Attribute) and n.func.attr == "get" and n.args and isinstance(n.args[0], ast.Constant) and (dotted(n.func.value) or "") in MD_NAMES:
+        if isinstance(n, ast.Call) and isinstance(n.func, ast.Attribute) and n.func.attr == "get" and n.args and isinstance(n.args[0], ast.Constant) and _is_md_base(n.func.value):
             out[n.args[0].value] = True
         # "a b c".split() lists of required fields
         if isinstance(n, ast.Assign) and isinstance(n.targets[0], ast.Name) and "required" in n.targets[0].id:
@@ -201,10 +210,12 @@ def r3_metadata_from_chunk(chk, repo):
     for k, w in want.items():
         chk.check(k in kws and norm(kws[k]) == w, "C03.R3", sv, dicts[0], f"chunk metadata field {k!r} is {norm(kws[k]) if k in kws else 'missing'}, expected {w}: stored metadata would disagree with the stored rows",
                   site_text=f"Saver.save: chunk_info[{k}] = {w}", site={"function": sv.qualname, "field": k})
+    ci_stmt = stmt_of(dicts[0])
+    CI = ci_stmt.targets[0].id if isinstance(ci_stmt, ast.Assign) and isinstance(ci_stmt.targets[0], ast.Name) else None
     scs = [c for c in calls_in(sv.node) if call_name(c) == "self._save_chunk"]
-    chk.check(len(scs) == 1 and norm(scs[0].args[0]) == f"{cparam}.data" and norm(scs[0].args[1]) == "chunk_info", "C03.R3", sv, None, "rows written are not the data of the chunk whose metadata is recorded", site_text="Saver.save: _save_chunk(chunk.data, chunk_info)")
+    chk.check(len(scs) == 1 and CI is not None and norm(scs[0].args[0]) == f"{cparam}.data" and norm(scs[0].args[1]) == CI, "C03.R3", sv, None, "rows written are not the data of the chunk whose metadata is recorded", site_text="Saver.save: _save_chunk(chunk.data, chunk_info)")
     mds = [c for c in calls_in(sv.node) if call_name(c) == "self._save_chunk_metadata"]
-    chk.check(len(mds) == 1 and norm(mds[0].args[0]) == "chunk_info", "C03.R3", sv, None, "chunk metadata is not recorded for every saved chunk", site_text="Saver.save: _save_chunk_metadata(chunk_info) for every chunk")
+    chk.check(len(mds) == 1 and norm(mds[0].args[0]) == CI, "C03.R3", sv, None, "chunk metadata is not recorded for every saved chunk", site_text="Saver.save: _save_chunk_metadata(chunk_info) for every chunk")
     if mds:
         cfg = cfg_of(sv)
         node = cfg.node_of(stmt_of(mds[0]))
@@ -230,10 +241,10 @@ def r3_metadata_from_chunk(chk, repo):
     chk.check(len(app) == 1 and norm(app[0].args[0]) == "chunk_info", "C03.R3", fm, None, "chunk info is not appended to the metadata's chunk list", site_text="FileSaver._save_chunk_metadata: md[chunks].append(chunk_info)")
     fsv = repo.func("FileSaver._save_chunk", FILES)
     names = [n for n in walk_body(fsv.node) if isinstance(n, ast.Call) and call_name(n) == "dict" and any(k.arg == "filename" for k in n.keywords)]
-    chk.check(bool(names) and all(norm({k.arg: k.value for k in d.keywords}["filename"]) == "filename" for d in names), "C03.R3", fsv, None, "recorded file name is not the name the chunk was written under", site_text="FileSaver._save_chunk: filename recorded = filename written")
-    d = Defs(fsv.node)
-    fn = d.single("fn")
-    chk.check(fn is not None and "filename" in norm(fn), "C03.R3", fsv, None, "chunk is written under a name different from the recorded one", site_text="FileSaver._save_chunk: fn = join(tempdir, filename)")
+    FN_, _fa, _fb = local_defined_as(fsv.node, "self._chunk_filename(chunk_info)")
+    chk.check(bool(names) and FN_ is not None and all(norm({k.arg: k.value for k in d.keywords}["filename"]) == FN_ for d in names), "C03.R3", fsv, None, "recorded file name is not the name the chunk was written under", site_text="FileSaver._save_chunk: filename recorded = filename written")
+    fn = [n for n, b in pfind(fsv.node, f"L_p = os.path.join(self.tempdirname, {FN_})")] if FN_ else []
+    chk.check(bool(fn), "C03.R3", fsv, None, "chunk is written under a name different from the recorded one", site_text="FileSaver._save_chunk: fn = join(tempdir, filename)")
 
 
 # ------------------------------------------------------------------------------------ R4
@@ -252,13 +263,17 @@ def r4_rechunker_typestate(chk, repo):
         chk.check(tgt is not None and bool(rec) and bool(loops), "C03.R4", sf, n.stmt, "flushed chunks are not saved like received ones", site_text="Saver.save_from: flushed chunks go through the same save loop")
     # every normal path from loop exit to close passes... the flush happens inside the loop on exhaustion:
     # the loop can only end after `exhausted = True`, which is set only next to the flush
-    ex = [n for n in cfg.stmt_nodes() if isinstance(n.stmt, ast.Assign) and any(norm(t) == "exhausted" for t in n.stmt.targets) and isinstance(n.stmt.value, ast.Constant) and n.stmt.value.value is True]
+    main = [n for n in walk_body(sf.node) if isinstance(n, ast.While) and any(call_name(c) == "next" for c in calls_in(n))]
+    flag = pmatch("not L_ex", main[0].test) if main else None
+    EX = flag["L_ex"] if flag else None
+    ex = [n for n in cfg.stmt_nodes() if EX and isinstance(n.stmt, ast.Assign) and any(norm(t) == EX for t in n.stmt.targets) and isinstance(n.stmt.value, ast.Constant) and n.stmt.value.value is True]
     chk.check(bool(ex) and all(enclosing(e.stmt, (ast.ExceptHandler,)) is not None and any(enclosing(f_.stmt, (ast.ExceptHandler,)) is enclosing(e.stmt, (ast.ExceptHandler,)) for f_ in fl) for e in ex), "C03.R4", sf, None, "the save loop can end without the flush having happened", site_text="Saver.save_from: loop ends only after flush")
-    inc = [n for n in walk_body(sf.node) if isinstance(n, ast.AugAssign) and norm(n.target) == "chunk_i"]
     saves = [c for c in calls_in(sf.node) if call_name(c) == "self.save"]
+    CNT = norm(kw(saves[0], "chunk_i")) if saves and isinstance(kw(saves[0], "chunk_i"), ast.Name) else None
+    inc = [n for n in walk_body(sf.node) if isinstance(n, ast.AugAssign) and CNT and norm(n.target) == CNT]
     ok = len(inc) == 1 and len(saves) == 1 and isinstance(inc[0].value, ast.Constant) and inc[0].value.value == 1 and enclosing(inc[0], (ast.For,)) is enclosing(saves[0], (ast.For,)) and enclosing(inc[0], (ast.If,)) is None
     chk.check(ok, "C03.R4", sf, None, "chunk number does not advance exactly once per saved chunk (files would be overwritten or numbered with gaps)", site_text="Saver.save_from: chunk_i += 1 once per save")
-    chk.check(bool(saves) and kw(saves[0], "chunk_i") is not None and norm(kw(saves[0], "chunk_i")) == "chunk_i", "C03.R4", sf, None, "save is not given the running chunk number", site_text="Saver.save_from: save(chunk_i=chunk_i)")
+    chk.check(bool(saves) and CNT is not None and any(pmatch(f"{CNT} = 0", n) is not None for n in walk_body(sf.node) if isinstance(n, ast.Assign)), "C03.R4", sf, None, "save is not given the running chunk number", site_text="Saver.save_from: save(chunk_i=chunk_i)")
     # SaverSpy
     sc = repo.func("SaverSpy.close", SINGLE)
     scfg = cfg_of(sc)
@@ -275,7 +290,11 @@ def r4_rechunker_typestate(chk, repo):
     # Rechunker.flush hands out and clears the cache
     rf = repo.func("Rechunker.flush", CHUNK)
     rets = [n for n in walk_body(rf.node) if isinstance(n, ast.Return) and n.value is not None]
-    chk.check(any(isinstance(r.value, ast.List) and r.value.elts and norm(r.value.elts[0]) in ("result", "self.cache") for r in rets), "C03.R4", rf, None, "flush does not return the cached chunk", site_text="Rechunker.flush: returns the cache")
+    def _is_cache(e):
+        if norm(e) == "self.cache":
+            return True
+        return isinstance(e, ast.Name) and bool(pfind(rf.node, f"{e.id} = self.cache"))
+    chk.check(any(isinstance(r.value, ast.List) and r.value.elts and _is_cache(r.value.elts[0]) for r in rets), "C03.R4", rf, None, "flush does not return the cached chunk", site_text="Rechunker.flush: returns the cache")
     rr = repo.func("Rechunker.receive", CHUNK)
     rcfg = cfg_of(rr)
     passthrough = [n for n in rcfg.stmt_nodes() if isinstance(n.stmt, ast.Return) and ("self.rechunk", False) in rcfg.guard_facts(n)]
@@ -295,24 +314,28 @@ def r5_empty_and_rebuild(chk, repo):
     r = [n for n in rcfg.stmt_nodes() if not isinstance(n.stmt, COMPOUND) and node_calls(n, lambda c, nm: nm == "self._read_chunk")]
     chk.check(bool(r) and all(("chunk_info['n'] == 0", False) in rcfg.guard_facts(n) for n in r), "C03.R5", rd, None, "reader tries to read a file for chunks recorded as empty (the writer never wrote one)", site_text="_read_and_format_chunk: file read iff n != 0")
     e = [n for n in rcfg.stmt_nodes() if isinstance(n.stmt, ast.Assign) and ("chunk_info['n'] == 0", True) in rcfg.guard_facts(n)]
-    chk.check(bool(e) and all("np.empty(0" in norm(n.stmt.value) and "dtype" in norm(n.stmt.value) for n in e), "C03.R5", rd, None, "empty chunk is not rebuilt as an empty array of the stored dtype", site_text="_read_and_format_chunk: np.empty(0, dtype) for n == 0")
+    chk.check(bool(e) and all(pmatch("np.empty(0, dtype=dtype)", n.stmt.value) is not None for n in e), "C03.R5", rd, None, "empty chunk is not rebuilt as an empty array of the stored dtype", site_text="_read_and_format_chunk: np.empty(0, dtype) for n == 0")
     cons = [c for c in calls_in(rd.node) if (call_name(c) or "").endswith("Chunk")]
     chk.need(len(cons) == 1, "C03.R5: Chunk construction in _read_and_format_chunk not found")
     kws = {k.arg: norm(k.value) for k in cons[0].keywords if k.arg}
-    want = {"start": "chunk_info['start']", "end": "chunk_info['end']", "run_id": "chunk_info['run_id']", "data": "data", "subruns": "subruns"}
+    DATA = kws.get("data")
+    ddefs = [norm(n.value) for n in walk_body(rd.node) if isinstance(n, ast.Assign) and DATA and norm(n.targets[0]) == DATA]
+    chk.check(bool(ddefs) and all(v.startswith("self._read_chunk(") or v.startswith("np.empty(0") for v in ddefs), "C03.R5", rd, stmt_of(cons[0]), "loaded chunk's data is not what was read from the chunk file", site_text="_read_and_format_chunk: Chunk(data=<rows read>)", site={"function": rd.qualname, "field": "data"})
+    want = {"start": "chunk_info['start']", "end": "chunk_info['end']", "run_id": "chunk_info['run_id']"}
     for k, v in want.items():
         chk.check(kws.get(k) == v, "C03.R5", rd, stmt_of(cons[0]), f"loaded chunk's {k} is {kws.get(k)}, expected {v}", site_text=f"_read_and_format_chunk: Chunk({k}={v})", site={"function": rd.qualname, "field": k})
-    d = Defs(rd.node)
-    sr = d.single("subruns")
-    chk.check(sr is not None and norm(sr) == "chunk_info.get('subruns', None)", "C03.R5", rd, None, "subruns are not restored from the chunk metadata", site_text="_read_and_format_chunk: subruns from chunk_info")
+    SUB = kws.get("subruns")
+    sr = [n for n, b in pfind(rd.node, f"{SUB} = chunk_info.get('subruns', None)")] if SUB and SUB.isidentifier() else []
+    chk.check(bool(sr), "C03.R5", rd, None, "subruns are not restored from the chunk metadata", site_text="_read_and_format_chunk: subruns from chunk_info")
     ld = repo.func("StorageBackend.loader", COMMON)
     ck = [n for n in walk_body(ld.node) if isinstance(n, ast.Call) and call_name(n) == "dict" and any(k.arg == "data_kind" for k in n.keywords)]
     chk.need(len(ck) == 1, "C03.R5: chunk construction kwargs in StorageBackend.loader not found")
     kk = {k.arg: norm(k.value) for k in ck[0].keywords}
-    chk.check(kk.get("data_type") == "metadata['data_type']" and kk.get("data_kind") == "metadata['data_kind']" and kk.get("dtype") == "dtype", "C03.R5", ld, None, "data type / kind / dtype of loaded chunks do not come from the stored metadata", site_text="loader: data_type, data_kind, dtype from metadata")
-    dd = Defs(ld.node)
-    dt = dd.single("dtype")
-    chk.check(dt is not None and norm(dt) == "literal_eval(metadata['dtype'])", "C03.R5", ld, None, "dtype is not parsed from the stored metadata", site_text="loader: dtype = literal_eval(metadata[dtype])")
+    DTN = kk.get("dtype")
+    MDL, _x, _y = local_defined_as(ld.node, "self.get_metadata(backend_key)")
+    chk.check(MDL is not None and kk.get("data_type") == f"{MDL}['data_type']" and kk.get("data_kind") == f"{MDL}['data_kind']" and DTN is not None, "C03.R5", ld, None, "data type / kind / dtype of loaded chunks do not come from the stored metadata", site_text="loader: data_type, data_kind, dtype from metadata")
+    dt = [n for n, b in pfind(ld.node, f"{DTN} = literal_eval({MDL}['dtype'])")] if DTN and DTN.isidentifier() and MDL else []
+    chk.check(bool(dt), "C03.R5", ld, None, "dtype is not parsed from the stored metadata", site_text="loader: dtype = literal_eval(metadata[dtype])")
     sb = repo.func("StorageBackend.saver", COMMON)
     chk.check(any(isinstance(n, ast.Assign) and norm(n.targets[0]) == "metadata['dtype']" and "descr" in norm(n.value) for n in walk_body(sb.node)), "C03.R5", sb, None, "dtype is not stored in the literal form the loader parses", site_text="StorageBackend.saver: metadata[dtype] = dtype.descr.__repr__()")
     # row count check on load (detects corruption): evidence
